@@ -158,8 +158,8 @@ def extreme_documents():
         csv.writer(f, lineterminator='\n').writerows(rows)
         return u(f.getvalue())
     csv_a = [['', 'id', special], ['Zo\u00eb \u4e2d', '\U0001F600', 'a\x01b\x7f'], ['18446744073709551616', '1e308', 'inf'], [long_s, 'z']]
-    csv_b = [['x', 'id', special + '!'], ['Zo\u00eb \u4e2e', '\U0001F601', 'a\x02b\x7f'], ['-9223372036854775809', 'nan', ''],
-             [long_s, 'z'], ['', long_s]]
+    # (only one 2000-character cell / text per document: two of them cost a 2000 x 2000 string edit distance)
+    csv_b = [['x', 'id', special + '!'], ['Zo\u00eb \u4e2e', '\U0001F601', 'a\x02b\x7f'], ['-9223372036854775809', 'nan', '']]
 
     def xel(tag, attrib=None, text=None, kids=()):
         e = ET.Element(tag, attrib or {})
@@ -173,8 +173,7 @@ def extreme_documents():
     xstr_a = xel('r', {'q': special, 'na': 'Zo\u00eb', 'e': ''}, None,
                  [xel('t', text=special), xel('e', text=''), xel('n\u00e9', text='\U0001F600 \u4e2d'), xel('same', text=long_s)])
     xstr_b = xel('r', {'q': special + '!', 'na': 'Zo\u00ea', 'e2': ''}, None,
-                 [xel('t', text=special + '?'), xel('e'), xel('n\u00e9', text='\U0001F601 \u4e2e'), xel('same', text=long_s),
-                  xel('ins', text=long_s)])
+                 [xel('t', text=special + '?'), xel('e'), xel('n\u00e9', text='\U0001F601 \u4e2e'), xel('ins', text='')])
 
     def xdeep(n, leaf):
         e = leaf
@@ -190,7 +189,10 @@ def extreme_documents():
     pl_deep_b = {'d': _nest(30, [[], {}, 1]), 'empty': [], 'el': {}}
     pl = [('x-num', pl_num_a, pl_num_b), ('x-str', pl_str_a, pl_str_b), ('x-deep', pl_deep_a, pl_deep_b),
           ('x-nonfinite', nf_a, nf_b)]
-    pk = pairs[:1] + [('x-str', dict(str_a, by=b'\xff\x00by'), dict(str_b, by=b'\xff\x01by'))] + pairs[2:]
+    # bytes (pickle protocol >= 3 keeps bytes objects; protocol 2 pickles them as _codecs.encode calls):
+    # x-bytes: the bytes values are equal or inserted next to non-bytes; x-bytes-diff: two different bytes values
+    by_a, by_b = {'by': b'\xff\x00by', 'l': [1]}, {'by': b'\xff\x00by', 'l': [1, b'zz', b'']}
+    byd_a, byd_b = {'by': b'\xff\x00by'}, {'by': b'\xff\x01by'}
     return {
         'json': [(n, jd(a), jd(b)) for n, a, b in pairs],
         'json5': [(n, jd(a), jd(b)) for n, a, b in pairs],
@@ -200,7 +202,9 @@ def extreme_documents():
         'html': [('x-str', xs(xstr_a), xs(xstr_b)), ('x-deep', xs(xdeep_a), xs(xdeep_b))],
         'plist': [(n, plistlib.dumps(a, fmt=plistlib.FMT_XML, sort_keys=True),
                    plistlib.dumps(b, fmt=plistlib.FMT_XML, sort_keys=True)) for n, a, b in pl],
-        'pickle': [(n, pickle.dumps(a, protocol=2), pickle.dumps(b, protocol=2)) for n, a, b in pk],
+        'pickle': [(n, pickle.dumps(a, protocol=2), pickle.dumps(b, protocol=2)) for n, a, b in pairs]
+                  + [('x-bytes', pickle.dumps(by_a, protocol=4), pickle.dumps(by_b, protocol=4)),
+                     ('x-bytes-diff', pickle.dumps(byd_a, protocol=4), pickle.dumps(byd_b, protocol=4))],
     }
 
 
@@ -222,6 +226,19 @@ def argv_of(cfg, path_a, path_b):
 
 
 # ------------------------------------------------------------------ implementation side (worker)
+
+def _skeleton(msg):
+    """The message without the contents of parentheses/brackets (reprs of whole trees make messages arbitrarily long)."""
+    out, depth = [], 0
+    for ch in msg:
+        if ch in '([{':
+            depth += 1
+        elif ch in ')]}':
+            depth = max(0, depth - 1)
+        elif depth == 0:
+            out.append(ch)
+    return ''.join(out)
+
 
 def _inst_path(f):
     """A formatter instance as the list of class names from itself up to its root."""
@@ -305,7 +322,7 @@ def impl_run(item):
         return ret
     gf.get_formatter = get_formatter
     gf.Formatter.get_formatter = method
-    roots, pairs = [], set()
+    roots, pairs, kinds = [], set(), set()
     wrapped = []
 
     def wrap_loader(ft):
@@ -316,6 +333,8 @@ def impl_run(item):
             if isinstance(t, gt.TreeNode):
                 roots.append(type(t).__name__)
                 for n in t.dfs():
+                    if isinstance(n, leaf_type):
+                        kinds.add(gen_dispatch.scalar_kind(n.object))
                     for ch in n.children():
                         pairs.add((type(n).__name__, type(ch).__name__))
             return t
@@ -332,12 +351,13 @@ def impl_run(item):
         try:
             res['status'] = gm.main(argv_of(item, pa, pb))
         except SystemExit as e:
-            res['exc'] = {'cls': 'SystemExit', 'msg': str(e.code), 'where': [], 'chain': []}
+            res['exc'] = {'cls': 'SystemExit', 'msg': str(e.code), 'where': [], 'chain': [], 'in_render': False}
         except BaseException as e:  # noqa
             tb = traceback.extract_tb(e.__traceback__)
             where = [f'{os.path.basename(fr.filename)}:{fr.name}' for fr in tb]
             # innermost frames inside graphtage, most recent last
-            res['exc'] = {'cls': type(e).__name__, 'msg': str(e)[:2000], 'where': where[-8:],
+            res['exc'] = {'cls': type(e).__name__, 'msg': (_skeleton(str(e))[:500] + ' | ' + str(e))[:2000], 'where': where[-8:],
+                          'in_render': any(fr.name == 'print' and os.path.basename(fr.filename) == 'tree.py' for fr in tb),
                           'chain': [fr.name for fr in tb if fr.name.startswith('print') or fr.name.startswith('_json_print')][-6:]}
     finally:
         sys.stdout, sys.stderr = so, se
@@ -347,6 +367,7 @@ def impl_run(item):
             del ft.build_tree_handling_errors
     res['roots'] = sorted(set(roots))
     res['pairs'] = sorted(pairs)
+    res['kinds'] = sorted(kinds)
     res['stdout_len'] = len(out.getvalue())
     res['stderr'] = err.getvalue()[-300:]
     res['events'] = events[:max_events]
@@ -368,7 +389,8 @@ HEADER = ('From Coq Require Import String List Bool ZArith.\nRequire Import GT.P
           'Import ListNotations.\nOpen Scope string_scope.\n')
 MODEL_HEADER = 'Require Import GT.DispatchModel GTgen.DispatchGen.\n'
 THEOREMS = ['C13_cover', 'C13_dispatch_total', 'C13_partial', 'C13_edits_mode', 'C13_refuted']
-KF_CLASSES = ['kf_reparent', 'kf_plist_null']
+KF_CLASSES = ['kf_reparent', 'kf_plist_null', 'kf_yaml_bytes', 'kf_bytes_diff']
+KF_TERMS = {'kf_bytes_diff': 'kf_bytes_diff'}     # predicates that do not consult the tables
 MODE_CTOR = {'diff': 'MDiff', 'e': 'MEdits', 'd': 'MDigest'}
 STYLE_CTOR = {'plain': 'SPlain', 'color': 'SColor', 'html': 'SHtml'}
 
@@ -402,10 +424,11 @@ def case_term(c, r):
     if r['exc'] is None:
         out = f'(Completed ({int(r["status"])})%Z)'
     else:
-        out = f'(Raised {cstr(r["exc"]["cls"])} {cstr(r["exc"]["msg"][:1500])})'
+        out = f'(Raised {cstr(r["exc"]["cls"])} {cstr(r["exc"]["msg"][:1500])} {gb(r["exc"].get("in_render", False))})'
     pairs = clist(r['pairs'], lambda p: f'({cstr(p[0])}, {cstr(p[1])})')
     return (f'(Build_c13_case {cstr(c["it"])} {cstr(c["of"])} {MODE_CTOR[c["mode"]]} {STYLE_CTOR[c["style"]]} '
-            f'{gb(c["j"])} {gb(c["diff"])} {clist(r["roots"])} {pairs} {clist(r["events"], event_term)} {out})')
+            f'{gb(c["j"])} {gb(c["diff"])} {clist(r["roots"])} {pairs} {clist(r.get("kinds", []))} '
+            f'{clist(r["events"], event_term)} {out})')
 
 
 # ------------------------------------------------------------------ product, driving, evaluation
@@ -495,7 +518,7 @@ def evaluate(wd, keep, st, tag):
             if st['models_ok']:
                 body.append('Eval vm_compute in (bad_cases (corr_C13 tables S) cases).')
                 for k in KF_CLASSES:
-                    body.append(f'Eval vm_compute in (bad_cases (fun c => negb ({k} tables c)) cases).')
+                    body.append(f'Eval vm_compute in (bad_cases (fun c => negb ({KF_TERMS.get(k, k + " tables")} c)) cases).')
             path = wd.file(f'{tag}_{gi}_{ci}.v')
             with open(path, 'w') as f:
                 f.write('\n'.join(body) + '\n')
